@@ -1,4 +1,4 @@
-P('C18', shards=8,
+P('C18', shards=16,
   technique='property-based testing over generated file-system scenarios plus complete enumeration of operation x source kind x destination kind (aliasing, failing steps, cross-device via a real second file system); oracle: before/after content snapshots',
   text='Every combination of {CopyFile, MoveFile} x source (regular, through a symlink, missing) x destination (missing, existing shorter/longer/same length, same path, ./-spelling, symlink or hard link to the source, directory, missing parent, parent is a file, '
        'another file system incl. an existing file and a symlink pointing back to the source) is built in a fresh directory for sizes from 0 to several MiB with seeded content, plus rapid-generated scenarios with arbitrary sizes. After the call the snapshot taken before decides: '
